@@ -130,7 +130,7 @@ func c17Body(c *run.Ctx) {
 			labels["unknown_id"] = true
 		}
 		before := snapshotAll(mA)
-		op := c.Ch.Int("op", 0, 24)
+		op := c.Ch.Int("op", 0, 25)
 		var ea, eb error
 		var ra, rb interface{}
 		eng := engB(id)
@@ -290,6 +290,52 @@ func c17Body(c *run.Ctx) {
 				t.closed = true
 			}
 			labels["reset"] = true
+		case 25:
+			name = "CreateTableRefused"
+			// a creation the engine refuses (two players on one seat / more players than seats),
+			// under a fresh id or under the id of a live table: the id must not become known
+			// and a live table with that id must not be disturbed
+			rid := id
+			if kindID != 0 || choose.Chance(c.Ch, "refused.fresh", 50) {
+				rid = fmt.Sprintf("R%d", i)
+			}
+			jps := []pokertable.JoinPlayer{{PlayerID: "x1", RedeemChips: 10, Seat: 0}, {PlayerID: "x2", RedeemChips: 10, Seat: 0}}
+			if choose.Chance(c.Ch, "refused.toomany", 40) {
+				jps = nil
+				for k := 0; k < 4; k++ {
+					jps = append(jps, pokertable.JoinPlayer{PlayerID: fmt.Sprintf("y%d", k), RedeemChips: 10, Seat: -1})
+				}
+			}
+			setting := pokertable.TableSetting{TableID: rid, Meta: pokertable.TableMeta{Rule: pokertable.CompetitionRule_Default, Mode: pokertable.CompetitionMode_CT, TableMaxSeatCount: 3, TableMinPlayerCount: 2}, Blind: pokertable.TableBlindState{Level: 1, SB: 1, BB: 2}, JoinPlayers: jps}
+			_, ea = mA.CreateTable(nil, nil, setting)
+			_, eb = mB.CreateTable(nil, nil, setting)
+			if ea == nil {
+				c.Failf("C17.invalid-create-accepted", "Manager.CreateTable accepted a setting the engine refuses (%d join players on 3 seats, seats %v)", len(jps), jps)
+			}
+			known := false
+			for _, t := range tables {
+				if t.id == rid {
+					known = true
+				}
+			}
+			if !known {
+				if _, err := mA.GetTableEngine(rid); !errors.Is(err, pokertable.ErrManagerTableNotFound) {
+					c.Failf("C17.refused-create-registered", "CreateTable(%s) was refused (%v) but the id is known to the manager afterwards", rid, ea)
+				}
+				if err := mA.PauseTable(rid); !errors.Is(err, pokertable.ErrManagerTableNotFound) {
+					c.Failf("C17.refused-create-registered", "CreateTable(%s) was refused (%v) but PauseTable on that id returns %v", rid, ea, err)
+				}
+			} else if tb != nil && !tb.closed {
+				// the live table must still be the one the manager addresses
+				after := snapshotAll(mA)
+				if after[rid] != before[rid] {
+					c.Failf("C17.refused-create-replaced-live-table", "a refused CreateTable reusing the id of live table %s changed what the manager sees under that id:\nbefore %s\nafter  %s", rid, trunc(before[rid]), trunc(after[rid]))
+				}
+			}
+			labels["refused_create"] = true
+			id = rid + "!" // nothing below may treat this as an operation on table `rid`
+			notFound = false
+			ea, eb = nil, nil
 		case 24:
 			name = "CreateTable"
 			// a new table next to the others must not disturb them
@@ -305,6 +351,16 @@ func c17Body(c *run.Ctx) {
 		c.Ch.Note("%s(%s,%s,%d) -> %v | engine: %v", name, id, pid, amount, ea, eb)
 		touched[id] = true
 		// (4) not found
+		if name == "CreateTableRefused" {
+			// judged above; every table must be exactly as before
+			after := snapshotAll(mA)
+			for _, t := range tables {
+				if b, ok := before[t.id]; ok && b != "" && after[t.id] != b {
+					c.Failf("C17.isolation.CreateTableRefused", "a refused CreateTable changed table %s", t.id)
+				}
+			}
+			continue
+		}
 		if notFound && name != "CreateTable" && name != "Reset" {
 			if !errors.Is(ea, pokertable.ErrManagerTableNotFound) {
 				c.Failf("C17.not-found."+name, "%s on table id %q (never created / closed / released) returned %v", name, id, ea)
